@@ -513,18 +513,7 @@ static void filterMode(uint64_t seed, long long npos, bool onlyPrint) {
         std::string moves = uciMoves(g);
         std::string goal = normFen(g.pos.back());
         if (goal.empty()) { viol("reachable-fen-rejected-by-reader", ref::toFEN(g.pos.back()) + " | moves " + moves); continue; }
-        // Half of the finals that follow a double pawn step with nothing to capture it are given the way most programs write them:
-        // with the square behind the pawn in the e.p. field (the same position in other words; before fix F23 the tool called it illegal)
-        bool rawEp = false;
-        {
-            const ref::Pos& f = g.pos.back();
-            if (f.ep >= 0 && !ref::epLegal(f) && r.chance(50)) {
-                std::string raw = ref::toFEN(f);
-                std::vector<std::string> a = splitWs(raw), b = splitWs(goal);
-                if (a.size() == 6 && b.size() == 6 && b[3] == "-") { a[3] = "-"; if (a == b) { goal = raw; rawEp = true; rep.add("gen_final_fen_names_uncapturable_ep_square"); } }
-            }
-        }
-        genStats(G, goal, rawEp);
+        genStats(G, goal);
         rep.add("positions");
         rep.distinct.insert(fnv(fenNoCounters(goal)));
         if (onlyPrint) { printf("FEN %s | %s | %s\n", goal.c_str(), moves.c_str(), G.finalKind.c_str()); continue; }
